@@ -315,7 +315,7 @@ impl Property for C19 {
         200
     }
     fn quick_cases(&self) -> u64 {
-        800_000
+        4_000_000
     }
     fn describe(&self, bytes: &[u8]) -> J {
         let (a, b, c) = decode(bytes);
